@@ -1,4 +1,34 @@
-"""C04 unit (work in progress skeleton): the script parser `decode` (src/miniscript/decode.rs)."""
+"""C04 unit: SOUNDNESS of the script parser `decode` (src/miniscript/decode.rs), per step of its stack machine, plus the
+trailing-token check of `Miniscript::decode_with_validation_params` (src/miniscript/mod.rs).
+
+    decode_with_validation_params(script) == Ok(ms)   ==>   lex(script), in script order, == toks(ms)
+
+ORACLE (outside the code): `toks(ms)` = the token sequence of the Miniscript specification's script template of `ms`,
+children inlined.  It is RENDERED from the template table of unit c04_encode (`TEMPLATES`, the specification's "Bitcoin
+Script" column; n-ary fragments written out next to it) with every item mapped to the token unit c04_lex proves the lexer
+assigns to it: a non-push opcode -> its token, OP_0 / OP_1..OP_16 and number pushes -> Num(n), a key push ->
+Bytes33/Bytes65/Bytes32 carrying the key's serialisation, a hash push -> Hash20/Bytes32, and -- the canonical-form point --
+a fused X-VERIFY opcode (EQUALVERIFY in pk_h / the hash fragments, and `v:X` whose X ends in EQUAL / NUMEQUAL / CHECKSIG /
+CHECKMULTISIG) -> the TWO tokens `X, Verify`, exactly like a separate VERIFY after a non-fusable X.  Tokens are compared
+through the abstraction `abs_tok` (consensus opcode byte | number | pushed bytes), which is injective.
+
+What "canonical" means at token level: the token sequence `.., Equal, Verify` has two byte pre-images (EQUALVERIFY, or EQUAL
+followed by VERIFY); unit c04_lex proves the lexer rejects the second one (NonMinimalVerify) and rust-bitcoin's
+`instructions_minimal` rejects non-minimal pushes, so on lexer OUTPUT the map tokens -> bytes is injective.  Together with
+c04_encode (`encode(ms)` is the template of `ms`, VERIFY fused wherever possible) this unit's theorem gives: a script that
+decodes to `ms` has the tokens of `encode(ms)`, hence the bytes of `encode(ms)`.
+
+PROOF SHAPE.  State = (rem: tokens not yet consumed -- a prefix of the input, the parser pops from the end; NT: non-terminal
+stack; T: terminal stack).  Invariant  INV:  abs_seq(rem) + unp(NT, T) == input  and  wf(NT, T)  where `unp` reconstructs the
+tokens consumed so far from the pending non-terminals (each NonTerm variant has a frame `parts`: the template tokens already
+consumed on its behalf, between its `need` children) and the completed terms, and `wf` says that T holds enough terms for
+every pending NonTerm (this discharges the `.unwrap()`s of reduce1 / reduce2 / Tern / ThreshE and the two `assert_eq!`s at
+the end of `decode`: C11).  Every arm of `match non_term.pop()` is cut verbatim into a step function and proved to keep INV,
+to consume tokens from the end only, and never to push a term without consuming a token.  `decode_compose` (authored,
+machine-checked) re-assembles the loop from the step functions: INV holds initially (NT = [MaybeAndV, Expression], T = []) and
+gives `input == abs_seq(rem) + toks(ms)` at the end; the real text of `decode_with_validation_params` is then verified to
+return Ok only when `rem` is empty.
+"""
 import re
 
 from vlib.verus import VerusFile, Contract, Clause, sub, lit, rule, Undecided
@@ -16,7 +46,32 @@ DECODE = L.DECODE
 THRESH = _tree.THRESH
 OPS = L.OPS
 
-DROPPED = []
+DROPPED = [
+    "decode: the `loop { match non_term.pop() { ARMS } }` frame, the two `Vec::with_capacity` and the two final `assert_eq!` are not extracted; the arms are cut verbatim into one "
+    "step function each (`None => break` becomes the loop exit of the authored `decode_compose`, which re-assembles the loop from the step functions and is machine-checked; "
+    "its two `assert`s stand for the `assert_eq!`s).  Termination of the loop is not claimed (exec_allows_no_decreases_clause)",
+    "`match_token!` is expanded MECHANICALLY in the unit (function `match_token_expander`, the macro's two rules; the macro text in decode.rs must equal EXPECTED_MACRO, else "
+    "UNDECIDED): code inside a macro invocation is invisible to Verus' syntax layer, so loop invariants / ghost code could not be placed in it.  `other.to_string()` (error payload) "
+    "-> stub token_to_string",
+    "R10 ghost code is appended to the leaves of the expanded match_token! trees (generated from the PATH of patterns leading to the leaf) and after the arms; no executable token is "
+    "added.  Facts that depend on what the code did are TESTED (`if fact {..}`), not asserted, so that a code change fails the named postcondition",
+    "case split (Expression and EndIf arms): the arm is verified once per leading-token sequence (up to 4 tokens, following the nesting of the match_token! invocations); in each copy the "
+    "match arms that cannot be taken under the case's precondition are replaced by `{ proof { assert(false); } return Err(..) }` -- their unreachability is PROVED, their text is verified in "
+    "the case where they are live; the cases are proved exhaustive (decode_step_<arm>__cases_exhaustive)",
+    "R6 `term.reduce1(Terminal::X)` / `reduce2(Terminal::X)`: the tuple-variant constructor passed as a function is eta-expanded to a closure `|x| Terminal::X(x)` carrying "
+    "`ensures t == Terminal::X(x)` (Verus has no fn items for constructors); reduce1 / reduce2 themselves are the real text, verified generically in the closure",
+    "R7 `.map_err(..)` is dropped: the stubs (`from_slice`, `Threshold::new`, `validate_k_n`, `from_consensus`, `validate`) return the crate `Error` directly; only error payloads differ",
+    "R12 `Miniscript::TRUE` / `FALSE` (associated consts) -> stub functions `TRUE()` / `FALSE()`",
+    "R8/R10 loops: `for _ in 0..n` (multi keys, ThreshE children) get a named loop variable and an invariant; `while tokens.peek() == Some(&Tk::CheckSigAdd)` gets invariant + decreases; "
+    "`let mut keys` / `let mut subs` get a type ascription (the type rustc infers); loop bodies verbatim",
+    "`impl Iterator for TokenIter { fn next }` is verified as an inherent method (trait indirection dropped); peek / un_next / new / next are the real bodies",
+    "Miniscript constructors (pk_k, expr_raw_pkh, after, older, sha256 .., multi, multi_a, TRUE, FALSE) and from_ast are stubs that say which Terminal the result wraps (from_ast may fail): "
+    "their type/ext computation is the business of C05/C09; `Ctx::Key::from_slice` is specified by `spec_ser(key) == the slice` (parse / serialise round trip of rust-bitcoin keys, assumed; "
+    "checked by hand that hybrid 06/07 prefixes are rejected by the real crate)",
+    "hash fragments: for the key types a script decodes into (`ScriptContext::Key`) the hash associated types ARE sha256::Hash etc. (trait bound copied from context.rs), so the "
+    "`ToPublicKey::to_sha256` converters of c04_encode's templates are the identity here",
+    "decode never produces PkH / SortedMulti / SortedMultiA; their templates are in `toks` for completeness (key hash and BIP67 order uninterpreted)",
+]
 
 
 @rule("R7-map_err")
@@ -626,7 +681,16 @@ def emit_arm(vf, reg, arm, variant, tail, extra_rewrites=(), fname=None, contrac
         SIG % fname, GHOST_HEAD, arm["pat"], body, tail)
     from vlib.extract import strip_docs
     text = strip_docs(text)
-    vf.fn_text(fname, text, contract or step_contract(variant), PROPS, file=DECODE, lines=reg.lines(), anchor="fn:decode/match:non_term.pop() arm " + variant)
+    # every step function gets its own solver instance: the queries are independent and the long token paths are sensitive to solver context
+    vf.fn_text(fname, text, contract or step_contract(variant), PROPS, file=DECODE, lines=reg.lines(), anchor="fn:decode/match:non_term.pop() arm " + variant,
+               attrs="#[verifier::spinoff_prover]")
+    # reachability canary (the framework cannot generate one for `&mut` parameters): the precondition, over plain values, must not be contradictory
+    c = contract or step_contract(variant)
+    pre = " && ".join("(%s)" % x.text.replace("old(tokens).0@", "rem").replace("old(non_term)@", "nts").replace("old(term).0@", "ts") for x in c.requires)
+    cname = "canary_" + fname
+    start = vf._emit("proof fn %s<Ctx: ScriptContext>(top: NonTerm, input: Seq<AT>, rem: Seq<Token>, nts: Seq<NonTerm>, ts: Seq<%s>)\n    requires %s,\n    ensures false,\n{}\n" % (
+        cname, MS, pre), dict(origin="verif", fn=cname, canary_for=fname))
+    vf.canaries.append((cname, fname, start, vf._lines))
 
 
 # ------------------------------------------------------------------------------------------------
@@ -1201,6 +1265,14 @@ impl vstd::std_specs::cmp::PartialEqSpecImpl for Token {
 }
 """)
     vf.trust("PartialEqSpecImpl for Token", "derived PartialEq on the token enum is structural equality")
+    vf.trust("ParseableKey::from_slice contract (trait stub)", "rust-bitcoin key parsing: Ok(key) only if `key` serialises (as `encode` pushes it) to exactly the parsed bytes")
+    vf.trust("token_to_string, AbsLockTime::from_consensus, RelLockTime::from_consensus, threshold::validate_k_n, Threshold::new (external_body)",
+             "error-payload helper; lock-time constructors return a value with the given consensus number or fail; validate_k_n / Threshold::new as in src/primitives/threshold.rs "
+             "(Ok iff 1 <= k <= n <= MAX; the threshold keeps k and the vector) -- validate_k_n is verified in the C12 units")
+    vf.trust("assume_specification <[T]>::reverse", "std: reverses the slice in place")
+    vf.trust("Miniscript::{TRUE, FALSE, pk_k, expr_raw_pkh, after, older, sha256, hash256, ripemd160, hash160, multi, multi_a, from_ast} (external_body)",
+             "constructors: the result's `node` is the obvious Terminal (from_ast: the given one, or Err); see src/miniscript/mod.rs")
+    vf.trust("sha256 / hash256 / ripemd160 / hash160 ::Hash::from_byte_array", "bitcoin_hashes: the hash value with exactly these bytes (plain data stubs, not external_body)")
     _tree.emit(vf, ext="opaque", types="defs", script_context=SCRIPT_CONTEXT)
     vf.raw(PRELUDE, keep_vis=True)
     vf.raw(CONSTRUCTORS)
@@ -1251,6 +1323,7 @@ impl vstd::std_specs::cmp::PartialEqSpecImpl for Token {
     seen = []
     cased = []
     import os
+    # development knobs (never set by ./check): restrict the run to some arms / some cases of the split arms
     only = os.environ.get("C04_DECODE_ONLY")
     for a in arms:
         pat = re.sub(r"\s+", " ", a["pat"])
